@@ -417,6 +417,10 @@ func (s *session) newManifest(rec *sessionRecord, v *version) (err error) {
 		rec = &sessionRecord{}
 	}
 	s.fillRecord(rec, true)
+	// v already includes the tables added by rec; record each table once,
+	// otherwise the file reference counter counts them twice and never
+	// releases them.
+	rec.resetAddedTables()
 	v.fillRecord(rec)
 
 	defer func() {
